@@ -36,6 +36,15 @@ func Run(run *vh.Run) {
 		runFunctionLevel(run, rep, nPoints, fnWorkers)
 	}()
 
+	// governance leg (minimum gas price raised by a passed proposal)
+	for gi := 0; gi < run.N(3, 24); gi++ {
+		wg.Add(1)
+		go func(gi int) {
+			defer wg.Done()
+			runGovLeg(run, rep, gi)
+		}(gi)
+	}
+
 	// history level: one goroutine per (variant, world), bounded by a semaphore
 	sem := make(chan struct{}, workers)
 	variants := 0
@@ -92,6 +101,7 @@ func Run(run *vh.Run) {
 		return
 	}
 	// ---- floors (>= 2x margin below what the fixed case lists produce at any seed) ----
+	run.Floor("governance proposals raising the minimum gas price that passed", run.Get("gov_leg_proposals_passed"), int64(run.N(2, 16)))
 	run.Floor("function points evaluated", run.Get("fn_points"), int64(nPoints)*9/10)
 	run.Floor("function boundary points (usage at 0/target-1/target/target+1/limit/over-limit)", run.Get("fn_boundary_points"), int64(nPoints)/5)
 	run.Floor("function points where the min-price clamp decides", run.Get("fn_min_price_clamps"), int64(nPoints)/20)
